@@ -4,6 +4,25 @@ from selftest.mutants import M, T
 
 EXTRA = {}
 
+EXTRA["C04"] = [
+    M("fetch-cache-before-check", "tx.py", "            tx = Tx.parse(BytesIO(raw), network=network)\n", "            tx = cls.cache[tx_id] = Tx.parse(BytesIO(raw), network=network)\n",
+      ["C04.7"], "the response is cached (chained assignment) before its id is compared with the requested id"),
+    T("fetch-return-local", "tx.py", "        cls.cache[tx_id].network = network\n        return cls.cache[tx_id]\n",
+      "        tx = cls.cache[tx_id]\n        tx.network = network\n        return tx\n", ["C04.7"], "the cache entry is returned through a local"),
+]
+
+EXTRA["C02"] = [
+    M("xor-int-bitlength", "helper.py", "    return bytes(x ^ y for x, y in zip(a, b))\n",
+      "    n = big_endian_to_int(a) ^ big_endian_to_int(b)\n    return int_to_big_endian(n, (n.bit_length() + 7) // 8)\n", ["C02.7"], "xor result loses leading zero bytes"),
+    T("xor-int-fixed-width", "helper.py", "    return bytes(x ^ y for x, y in zip(a, b))\n",
+      "    n = big_endian_to_int(a) ^ big_endian_to_int(b)\n    return int_to_big_endian(n, len(a))\n", ["C02.7"], "integer xor written back with the operand length"),
+    T("xor-index-loop", "helper.py", "    return bytes(x ^ y for x, y in zip(a, b))\n", "    return bytes([a[i] ^ b[i] for i in range(len(a))])\n", ["C02.7"], "element-wise by index"),
+    M("infinity-has-parity", "pecc.py", "        if x is None:\n            return\n        if self.y.num % 2 == 1:\n            self.parity = 1\n        else:\n            self.parity = 0\n",
+      "        self.parity = 0 if x is None else self.y.num & 1\n", ["C02.4"], "the point at infinity gets parity 0: an all-zero x-only key verifies forged signatures"),
+    T("infinity-has-parity-but-guarded", "pecc.py", "    def verify_schnorr(self, msg, schnorr_sig):\n        if self.parity:\n",
+      "    def verify_schnorr(self, msg, schnorr_sig):\n        if self.x is None:\n            return False\n        if self.parity:\n", ["C02.4"], "explicit infinity guard"),
+]
+
 EXTRA["C01"] = [
     M("der-parse-strict-off-by-one", "pecc.py", "        r = int(s.read(rlength).hex(), 16)\n",
       "        rbin = s.read(rlength)\n        if len(rbin) > 1 and rbin[0] == 0 and rbin[1] <= 0x80:\n            raise RuntimeError(\"non-minimal\")\n        r = int(rbin.hex(), 16)\n",
